@@ -66,6 +66,7 @@ static void h_run_case(hcase_t* c) {
   rt_reg((void*)&wq.in_count, 8, 2, 8);
   rt_reg((void*)&wq.out_count, 8, 3, 8);
   rt_reg(nodes, sizeof nodes, 100, 8);
+  rt_reg_rest(&wq, sizeof wq, 3900);   /* search mode only: fields the model does not know */
   rt_run(c->nthreads, body, c->sched, c->nsched, dmax);
   rt_print_trace();
 }
